@@ -52,7 +52,7 @@ def ee_cases(rng, count, sizes):
         for r in range(n):
             for c in range(n):
                 d2.add(((2 * c + 1 - xc2) ** 2 + (2 * r + 1 - yc2) ** 2) / 4.0)
-        near = any(abs(v - d) < 1e-5 for v in r2 for d in d2)
+        near = any(abs(v - d) < 1e-5 and not (v == 0.0 and d == 0.0) for v in r2 for d in d2)      # 0 <= 0 is exact, not a tie
         if near:
             continue
         cases.append(dict(id=len(cases), n=n, xc2=xc2, yc2=yc2, img=img.tolist(), r2s=r2s))
@@ -60,14 +60,19 @@ def ee_cases(rng, count, sizes):
 
 
 def tok_image(h, w):
-    return (2.0 ** np.arange(h * w)).reshape(h, w)
+    """one token per pixel: powers of two while they stay exact (a sum then identifies the set of pixels), pseudo-random 40-bit
+    integers for larger images (sums stay exact in float64 and int64; a wrong set is detected with overwhelming probability)"""
+    if h * w <= 50:
+        return (2.0 ** np.arange(h * w)).reshape(h, w)
+    g = np.random.default_rng(h * 1000 + w)
+    return g.integers(1, 2 ** 40, size=(h, w)).astype(float)
 
 
 def check_bin(ip, c):
     bad = []
     h, w, n = c["h"], c["w"], c["n"]
     base = tok_image(h, w)
-    exp = np.array([[sum(2.0 ** (p[0] * w + p[1]) for p in cell) for cell in row] for row in c["out"]]).reshape(h // n, w // n)
+    exp = np.array([[sum(base[p[0], p[1]] for p in cell) for cell in row] for row in c["out"]]).reshape(h // n, w // n)
     for dtype in (float, np.int64):
         d2 = base.astype(dtype)
         variants = [("2d", d2, exp.astype(dtype)),
